@@ -926,6 +926,26 @@ class Folder:
                         d_ = d % (len(shp_) + 1)
                         return _reshape(v, shp_[:d_] + [1] + shp_[d_:])
                 raise Unfoldable("unsqueeze")
+            if m == "gather" and len(node.args) == 2 and not node.keywords:
+                v = self.fold(node.func.value)
+                d_, ix_ = self.fold(node.args[0]), self.fold(node.args[1])
+                if isinstance(v, list) and not isinstance(v, PySeq) and isinstance(ix_, list) and not isinstance(ix_, (PySeq, BoolList)) and isinstance(d_, int) and not isinstance(d_, bool):
+                    sv_, si_ = _regular(v), _regular(ix_)
+                    if len(sv_) == len(si_) and -len(sv_) <= d_ < len(sv_) and 0 not in si_:
+                        d_ %= len(sv_)
+
+                        def _g(idx):
+                            j_ = _at(ix_, idx)
+                            if isinstance(j_, bool) or not isinstance(j_, int) or not (0 <= j_ < sv_[d_]):
+                                raise Unfoldable("gather index out of range")
+                            src_ = list(idx)
+                            src_[d_] = j_
+                            if any(a_ >= b_ for k_, (a_, b_) in enumerate(zip(src_, sv_)) if k_ != d_):
+                                raise Unfoldable("gather index tensor larger than the source")
+                            return _at(v, src_)
+
+                        return _build_from(si_, _g)
+                raise Unfoldable("gather arguments")
             if m == "masked_fill" and len(node.args) == 2 and not node.keywords:
                 v = self.fold(node.func.value)
                 mk_, val_ = self.fold(node.args[0]), self.fold(node.args[1])
@@ -1460,7 +1480,15 @@ class Folder:
                 fn_ = {"real": lambda x: x.real if isinstance(x, complex) else x, "imag": lambda x: x.imag if isinstance(x, complex) else (0 if isinstance(x, int) else 0.0), "conj": lambda x: x.conjugate() if isinstance(x, complex) else x}[short]
                 return _ew(fn_, v_)
             if short in ("tensor", "as_tensor", "Tensor", "array", "float", "int") and node.args:
-                return self.fold(node.args[0])
+                v_ = self.fold(node.args[0])
+                if short in ("tensor", "as_tensor", "Tensor", "array") and nm != short and isinstance(v_, PySeq):
+                    # a tensor built from a python sequence is a tensor (nested lists), no longer a python sequence
+
+                    def _plain(z):
+                        return [_plain(e) for e in z] if isinstance(z, list) else z
+
+                    return _plain(v_)
+                return v_
             if short in ("cos", "sin", "sqrt", "exp", "abs") and node.args:
                 f = {"cos": math.cos, "sin": math.sin, "sqrt": math.sqrt, "exp": lambda x: cmath.exp(x) if isinstance(x, complex) else math.exp(x), "abs": abs}[short]
                 try:
